@@ -9,7 +9,7 @@ META = {
         "technique": "Lean 4 invariant/decision-logic proofs + differential correspondence of model and real actor",
     },
     "C19": {
-        "text": "Lean 4 refinement theorem impl_refines_spec: a model of the EVM actor's System cache (slots/transient cache, dirty flag = saved_state_root, flush before every send, reload after a successful send, VM rollback of failed sends, transient-data lifespan (origin, nonce), tombstone/is_dead) is observationally equal to Ethereum journaled-state semantics for EVERY call-tree script (CALL/STATICCALL/DELEGATECALL, reverts and failures at any depth, storage, transient storage, value transfers, logs, SELFDESTRUCT; any number of contracts, any nesting/re-entrancy) over any sequence of top-level messages with distinct (origin, nonce): every read value, every sub-call flag, final storage, destroyed set, balances, events. Named corollaries (inner_writes_visible_after_return, outer_writes_visible_to_inner, reverted_call_leaves_no_trace, transient_shared_within_message, transient_empty_next_message, selfdestruct_deferred, delegatecall_uses_caller_context) hold from an arbitrary quiescent state. Both layers are tied to the code on every run: generated systems of 2-4 real EVM contracts (a script-interpreter contract in raw bytecode) execute the same call-tree scripts in the harness VM; observation log, storage (GetStorageAt), GetBytecode, balances and committed events are compared with both Lean layers and with an independent journaled-state reference implementation in Rust (the oracle).",
+        "text": "Lean 4 refinement theorem impl_refines_spec: a model of the EVM actor's System cache (slots/transient cache, dirty flag = saved_state_root, flush before every send, reload after a successful send, VM rollback of failed sends, transient-data lifespan (origin, nonce), tombstone/is_dead) is observationally equal to Ethereum journaled-state semantics for EVERY call-tree script (CALL/STATICCALL/DELEGATECALL, reverts and failures at any depth, storage, transient storage, value transfers, logs, SELFDESTRUCT; any number of contracts, any nesting/re-entrancy) over any sequence of top-level messages with distinct (origin, nonce): every read value, every sub-call flag, final storage, destroyed set, balances, events. Named corollaries (inner_writes_visible_after_return, outer_writes_visible_to_inner, reverted_call_leaves_no_trace, transient_shared_within_message, transient_empty_next_message, selfdestruct_deferred, delegatecall_uses_caller_context) hold from an arbitrary quiescent state; two of them also in general form for arbitrary sub-scripts (failed_call_leaves_no_trace, delegatecall_is_inline). The main theorem is named impl_refines_spec_partial because the script language has no CREATE/CREATE2/Resurrect. Both layers are tied to the code on every run: generated systems of 2-4 real EVM contracts (a script-interpreter contract in raw bytecode) execute the same call-tree scripts in the harness VM; observation log, storage (GetStorageAt), GetBytecode, balances and committed events are compared with both Lean layers and with an independent journaled-state reference implementation in Rust (the oracle).",
         "design_ref": "DESIGN.md §7 C19",
         "note": "Trusted: Lean kernel (axioms propext, Quot.sound, Classical.choice only); the spec layer is my transcription of the EVM semantics (with the FEVM's SELFDESTRUCT choices); the model-to-code tie is differential (bounded by generator coverage reported in the evidence); the harness VM stands in for ref-fvm (rollback of failed sends, read-only propagation, per-message nonce). CREATE/CREATE2-in-tree and Resurrect are not modelled and not generated.",
         "technique": "Lean 4 simulation/refinement proof (mutual structural induction over nested call-tree scripts) + differential correspondence of both model layers with real EVM contracts + independent journaled-state oracle",
